@@ -7,10 +7,40 @@ let runners : (string * (string -> string list -> string list list -> (string ->
   ("C18", Drv_c18.run);
   ("C10", Drv_c10.run);
   ("C02", Drv_c02.run);
+  ("C06", Drv_c06.run);
   ("C16", Drv_c16.run);
   ("C14", Drv_c14.run);
   ("C15", Drv_c15.run);
+  ("C19", Drv_c19.run);
+  ("C20", Drv_c20.run);
+  ("C07", Drv_c07.run);
+  ("C11", Drv_c11.run);
+  ("C05", Drv_c05.run);
+  ("C12", Drv_c12.run);
+  ("C03", Drv_c03.run);
+  ("C13", Drv_c13.run);
 ]
+
+(* runners whose input is the harness OUTPUT ("<id> <line>" per line, model_input = "impl"):
+   lines are grouped by case id in order of first appearance *)
+let impl_runners = ["C06"]
+
+let run_on_impl run file out =
+  let ic = open_in file in
+  let order = ref [] and tbl : (string, string list list) Hashtbl.t = Hashtbl.create 64 in
+  (try
+     while true do
+       match Kutil.split_ws (input_line ic) with
+       | id :: rest ->
+         if not (Hashtbl.mem tbl id) then (order := id :: !order; Hashtbl.replace tbl id []);
+         Hashtbl.replace tbl id (rest :: Hashtbl.find tbl id)
+       | [] -> ()
+     done
+   with End_of_file -> ());
+  close_in ic;
+  Stdlib.List.iter (fun id ->
+      try run id [] (Stdlib.List.rev (Hashtbl.find tbl id)) out
+      with Failure m -> out (id ^ " MODEL-ERROR " ^ m)) (Stdlib.List.rev !order)
 
 (* optional third argument: the harness output for the same cases (for models that need
    run-time facts such as surviving file lengths); indexed by case id in Kutil.impl_lines *)
@@ -28,11 +58,17 @@ let load_impl path =
    with End_of_file -> ());
   close_in ic;
   Hashtbl.filter_map_inplace (fun _ v -> Some (Stdlib.List.rev v)) Kutil.impl_lines
+(* model_input = "impl": the input is the harness output, not a case file *)
+let () = if Array.length Sys.argv > 2 && Sys.argv.(1) = "C04" then (Drv_c04.main Sys.argv.(2); exit 0)
 
 let () =
   let prop = Sys.argv.(1) and file = Sys.argv.(2) in
   if Array.length Sys.argv > 3 then load_impl Sys.argv.(3);
+  if prop = "C12" then (Drv_c12.run_impl file (fun s -> print_string s; print_char '\n'); exit 0);
   let run = try Stdlib.List.assoc prop runners with Not_found -> (prerr_endline ("no model runner for " ^ prop); exit 2) in
+  if Stdlib.List.mem prop impl_runners && Array.length Sys.argv = 3 then begin
+    run_on_impl run file (fun s -> print_string s; print_char '\n'); exit 0
+  end;
   let ic = open_in file in
   let out s = print_string s; print_char '\n' in
   let cur = ref None and acc = ref [] in
